@@ -293,7 +293,7 @@ impl SecondOrderCone<F> {
         final(step_s)@ == mulWinv_seq(old(step_s)@, old(step_s)@, f_one(), f_zero(), old(self).w@, old(self).eta),
         final(shift)@ == shift_seq(final(step_z)@, final(step_s)@, sigmamu),
 //@end
-//@fn file=src/solver/core/cones/socone.rs in="Cone<T> for SecondOrderCone<T>" name=Δs_from_Δz_offset rules=R1,R2,zipidx:1=mii
+//@fn file=src/solver/core/cones/socone.rs in="Cone<T> for SecondOrderCone<T>" name=Δs_from_Δz_offset rules=R1,R2,zipidx:1=mii attrs="#[verifier::spinoff_prover]"
 //@contract
     requires old(out)@.len() >= 1, ds@.len() == old(out)@.len(), z@.len() == old(out)@.len(),
         old(self).w@.len() == old(out)@.len(), old(self).lambda@.len() == old(out)@.len(),
@@ -325,7 +325,7 @@ pub proof fn lemma_pk_below(col: int)
     }
 }
 impl SecondOrderCone<F> {
-//@fn file=src/solver/core/cones/socone.rs in="Cone<T> for SecondOrderCone<T>" name=get_Hs rules=R1,R2,R20
+//@fn file=src/solver/core/cones/socone.rs in="Cone<T> for SecondOrderCone<T>" name=get_Hs rules=R1,R2,R20 attrs="#[verifier::spinoff_prover]"
 //@contract
     requires self.dim >= 1, self.w@.len() == self.dim,
         // call site (KKT assembly): numel entries for a cone with diagonal Hs, the packed triangle otherwise
@@ -368,19 +368,19 @@ impl SecondOrderCone<F> {
 //   gamma = ws / 2,  lambda = sqrt(ss zs) (gamma,  ((gamma + z0/zs)/ss s_1 + (gamma + s0/ss)/zs z_1) / (s0/ss + z0/zs + 2 gamma))
 pub open spec fn us_zs(z: Seq<F>) -> F { sqrt_resid(z) }
 pub open spec fn us_eta(s: Seq<F>, z: Seq<F>) -> F { f_sqrt(f_div(sqrt_resid(s), sqrt_resid(z))) }
-pub open spec fn us_wa(s: Seq<F>, z: Seq<F>) -> Seq<F> {
+#[verifier::opaque] pub open spec fn us_wa(s: Seq<F>, z: Seq<F>) -> Seq<F> {
     let ss = sqrt_resid(s); let zs = sqrt_resid(z);
     Seq::new(s.len(), |i: int| if i == 0 { f_add(f_mul(s[0], f_recip(ss)), f_div(z[0], zs)) }
         else { f_add(f_mul(f_neg(f_recip(zs)), z[i]), f_mul(f_one(), f_mul(s[i], f_recip(ss)))) })
 }
 pub open spec fn us_ws(s: Seq<F>, z: Seq<F>) -> F { sqrt_resid(us_wa(s, z)) }
-pub open spec fn us_wb(s: Seq<F>, z: Seq<F>) -> Seq<F> { Seq::new(s.len(), |i: int| f_mul(us_wa(s, z)[i], f_recip(us_ws(s, z)))) }
+#[verifier::opaque] pub open spec fn us_wb(s: Seq<F>, z: Seq<F>) -> Seq<F> { Seq::new(s.len(), |i: int| f_mul(us_wa(s, z)[i], f_recip(us_ws(s, z)))) }
 pub open spec fn us_w1sq(s: Seq<F>, z: Seq<F>) -> F { vm_sumsq(tail(us_wb(s, z))) }
-pub open spec fn us_w(s: Seq<F>, z: Seq<F>) -> Seq<F> {
+#[verifier::opaque] pub open spec fn us_w(s: Seq<F>, z: Seq<F>) -> Seq<F> {
     Seq::new(s.len(), |i: int| if i == 0 { f_sqrt(f_add(f_one(), us_w1sq(s, z))) } else { us_wb(s, z)[i] })
 }
 pub open spec fn us_gamma(s: Seq<F>, z: Seq<F>) -> F { f_mul(f_lit(0.5), us_ws(s, z)) }
-pub open spec fn us_lambda(s: Seq<F>, z: Seq<F>) -> Seq<F> {
+#[verifier::opaque] pub open spec fn us_lambda(s: Seq<F>, z: Seq<F>) -> Seq<F> {
     let ss = sqrt_resid(s); let zs = sqrt_resid(z); let g = us_gamma(s, z);
     let a = f_div(f_add(g, f_div(z[0], zs)), ss);
     let b = f_div(f_add(g, f_div(s[0], ss)), zs);
@@ -399,16 +399,16 @@ pub open spec fn us_v1(s: Seq<F>, z: Seq<F>) -> F {
     f_sqrt(f_div(f_mul(f_lit(2.0), f_add(f_lit(2.0), wsqinv)), f_sub(f_mul(f_lit(2.0), wsq), wsqinv)))
 }
 // the tails are written by axpby(c, w1, 0): c w_i + 0 * (old entry)
-pub open spec fn us_u(s: Seq<F>, z: Seq<F>, u_old: Seq<F>) -> Seq<F> {
+#[verifier::opaque] pub open spec fn us_u(s: Seq<F>, z: Seq<F>, u_old: Seq<F>) -> Seq<F> {
     Seq::new(s.len(), |i: int| if i == 0 { us_u0(s, z) } else { f_add(f_mul(us_u1(s, z), us_w(s, z)[i]), f_mul(f_zero(), u_old[i])) })
 }
-pub open spec fn us_v(s: Seq<F>, z: Seq<F>, v_old: Seq<F>) -> Seq<F> {
+#[verifier::opaque] pub open spec fn us_v(s: Seq<F>, z: Seq<F>, v_old: Seq<F>) -> Seq<F> {
     Seq::new(s.len(), |i: int| if i == 0 { f_zero() } else { f_add(f_mul(us_v1(s, z), us_w(s, z)[i]), f_mul(f_zero(), v_old[i])) })
 }
 // s or z not strictly inside the cone (as far as the rounded residual can tell)
 pub open spec fn us_not_interior(s: Seq<F>, z: Seq<F>) -> bool { f_eq(sqrt_resid(z), f_zero()) || f_eq(sqrt_resid(s), f_zero()) }
 impl SecondOrderCone<F> {
-//@fn file=src/solver/core/cones/socone.rs in="Cone<T> for SecondOrderCone<T>" name=update_scaling rules=R1,R2,R15:self.lambda|sparse_data.u|sparse_data.v|w ret=r
+//@fn file=src/solver/core/cones/socone.rs in="Cone<T> for SecondOrderCone<T>" name=update_scaling rules=R1,R2,R15:self.lambda|sparse_data.u|sparse_data.v|w ret=r attrs="#[verifier::spinoff_prover]"
 //@contract
     requires soc_wf(*old(self)), s@.len() == old(self).w@.len(), z@.len() == old(self).w@.len(),
     ensures
@@ -424,15 +424,16 @@ impl SecondOrderCone<F> {
 //@pre
         let ghost c0 = *self;
 //@before "let wscale ="
-        proof { assert(w@ =~= us_wa(s@, z@)); }
+        proof { reveal(us_wa); assert(w@ =~= us_wa(s@, z@)); }
 //@before "let w1sq ="
-        proof { assert(w@ =~= us_wb(s@, z@)); }
+        proof { reveal(us_wb); assert(w@ =~= us_wb(s@, z@)); }
 //@before "let gamma ="
-        proof { assert(w@ =~= us_w(s@, z@)); }
+        proof { reveal(us_wb); reveal(us_w); assert(w@.len() == s@.len()); assert(tail(w@) =~= tail(us_wb(s@, z@))); assert(w@ =~= us_w(s@, z@)); }
 //@before "if let Some(sparse_data) ="
-        proof { assert(self.lambda@ =~= us_lambda(s@, z@)); }
+        proof { reveal(us_lambda); assert(self.lambda@ =~= us_lambda(s@, z@)); }
 //@after "sparse_data.v.as_mut_slice()[1..]"
             proof {
+                reveal(us_u); reveal(us_v);
                 assert(sparse_data.u@ =~= us_u(s@, z@, c0.sparse_data->Some_0.u@));
                 assert(sparse_data.v@ =~= us_v(s@, z@, c0.sparse_data->Some_0.v@));
             }
@@ -819,6 +820,7 @@ pub proof fn lemma_nt_success(s: Seq<F>, z: Seq<F>)
     ensures resid_r(us_wa(s, z)) > 0real,
 {
     broadcast use real_arith;
+    reveal(us_wa);
     lemma_resid_real(us_wa(s, z));
 }
 pub proof fn lemma_nt_wa_entries(s: Seq<F>, z: Seq<F>)
@@ -831,6 +833,7 @@ pub proof fn lemma_nt_wa_entries(s: Seq<F>, z: Seq<F>)
     }),
 {
     broadcast use real_arith;
+    reveal(us_wa);
     lemma_nt_scale(s); lemma_nt_scale(z);
     let ss = sqrt_resid(s).v(); let zs = sqrt_resid(z).v(); let is = 1real / ss; let iz = 1real / zs;
     let z0 = z[0].v();
@@ -860,6 +863,498 @@ pub proof fn lemma_vm_sumsq_real(a: Seq<F>) ensures vm_sumsq(a).v() == rdot(a, a
 {
     reveal(vm_sumsq);
     lemma_fold_dot_real(a, a, a.len() as int);
+}
+
+pub proof fn lemma_sq_sum(p: real, u: real) ensures (p + u) * (p + u) == p * p + 2real * (p * u) + u * u { assert((p + u) * (p + u) == p * p + 2real * (p * u) + u * u) by(nonlinear_arith); }
+pub proof fn lemma_mul4(a: real, b: real, c: real, d: real) ensures (a * b) * (c * d) == (a * c) * (b * d)
+{
+    let ab = a * b; let cd = c * d; let ac = a * c; let bd = b * d;
+    assert(ab * cd == ac * bd) by(nonlinear_arith) requires ab == a * b, cd == c * d, ac == a * c, bd == b * d;
+}
+pub proof fn lemma_pos_mul(a: real, b: real) requires a > 0real, b > 0real ensures a * b > 0real { assert(a * b > 0real) by(nonlinear_arith) requires a > 0real, b > 0real; }
+pub proof fn lemma_inv_pos(a: real) requires a > 0real ensures 1real / a > 0real, (1real / a) * a == 1real
+{ assert(1real / a > 0real && (1real / a) * a == 1real) by(nonlinear_arith) requires a > 0real; }
+// |s/ss + J z/zs|_J^2 = 2 + 2 <s, z> / (ss zs)   for ss^2 = resid s, zs^2 = resid z
+pub proof fn lemma_nt_resid_wa_alg(s0: real, z0: real, S: real, Z: real, C: real, ss: real, zs: real, is: real, iz: real)
+    requires is * ss == 1real, iz * zs == 1real, ss * ss == s0 * s0 - S, zs * zs == z0 * z0 - Z,
+    ensures ({
+        let wa0 = is * s0 + iz * z0; let n2 = is * (is * S + (-iz) * C) + (-iz) * (is * C + (-iz) * Z);
+        wa0 * wa0 - n2 == 2real + 2real * ((is * iz) * (s0 * z0 + C))
+    }),
+{
+    let i2 = is * is; let j2 = iz * iz; let ij = is * iz;
+    let u = is * s0; let t = iz * z0;
+    lemma_sq_sum(u, t);
+    lemma_mul4(is, s0, is, s0); lemma_mul4(iz, z0, iz, z0); lemma_mul4(is, s0, iz, z0);
+    lemma_dist(is, is * S, (-iz) * C); lemma_dist(-iz, is * C, (-iz) * Z);
+    assert(is * (is * S) == i2 * S) by(nonlinear_arith) requires i2 == is * is;
+    assert(is * ((-iz) * C) == -(ij * C)) by(nonlinear_arith) requires ij == is * iz;
+    assert((-iz) * (is * C) == -(ij * C)) by(nonlinear_arith) requires ij == is * iz;
+    assert((-iz) * ((-iz) * Z) == j2 * Z) by(nonlinear_arith) requires j2 == iz * iz;
+    lemma_mul4(is, ss, is, ss); lemma_mul4(iz, zs, iz, zs);
+    lemma_dist(i2, s0 * s0, -S); lemma_dist(j2, z0 * z0, -Z);
+    assert(i2 * (-S) == -(i2 * S)) by(nonlinear_arith); assert(j2 * (-Z) == -(j2 * Z)) by(nonlinear_arith);
+    lemma_dist(ij, s0 * z0, C);
+    assert(i2 * (ss * ss) == 1real);
+    assert(j2 * (zs * zs) == 1real);
+}
+// the normalised w:  w = wa / ws entry for entry (the recomputed w0 = sqrt(1 + |w1|^2) is wa0 / ws again), w0 > 0, w0^2 - |w1|^2 = 1
+pub proof fn lemma_nt_w(s: Seq<F>, z: Seq<F>)
+    requires z.len() == s.len(), interior(s), interior(z), resid_r(us_wa(s, z)) > 0real,
+    ensures ({
+        let wa = us_wa(s, z); let w = us_w(s, z); let ws = us_ws(s, z).v(); let iw = 1real / ws;
+        &&& ws > 0real && ws * ws == resid_r(wa) && w.len() == s.len() && wa.len() == s.len()
+        &&& forall|i: int| 0 <= i < s.len() ==> #[trigger] w[i].v() == iw * wa[i].v()
+        &&& w_normalised(w)
+    }),
+{
+    broadcast use real_arith, real_sqrt;
+    reveal(us_wb); reveal(us_w);
+    let n = s.len() as int; let m = n - 1;
+    let wa = us_wa(s, z); let wb = us_wb(s, z); let w = us_w(s, z);
+    lemma_nt_wa_entries(s, z);
+    lemma_nt_scale(s); lemma_nt_scale(z); lemma_nt_scale(wa);
+    let ws = us_ws(s, z).v(); let iw = 1real / ws;
+    lemma_inv_pos(ws); lemma_inv_pos(sqrt_resid(s).v()); lemma_inv_pos(sqrt_resid(z).v());
+    let is = 1real / sqrt_resid(s).v(); let iz = 1real / sqrt_resid(z).v();
+    assert forall|i: int| 0 <= i < n implies #[trigger] wb[i].v() == iw * wa[i].v() by {
+        let a = wa[i].v();
+        assert(wb[i].v() == a * iw);
+        assert(a * iw == iw * a) by(nonlinear_arith);
+    }
+    let A = rdot(tail(wa), tail(wa), m);
+    assert forall|k: int| 0 <= k < m implies #[trigger] tail(wb)[k].v() == iw * tail(wa)[k].v() + 0real * tail(wa)[k].v() by {
+        assert(tail(wb)[k] == wb[k + 1] && tail(wa)[k] == wa[k + 1]);
+    }
+    lemma_rdot_lincomb(tail(wb), tail(wa), tail(wa), iw, 0real, m);
+    let B = rdot(tail(wb), tail(wb), m);
+    assert(B == iw * (iw * A)) by {
+        assert(rdot(tail(wb), tail(wa), m) == iw * A + 0real * A);
+        assert(B == iw * rdot(tail(wb), tail(wa), m) + 0real * rdot(tail(wb), tail(wa), m));
+    }
+    assert(tail(wb).len() == m);
+    lemma_vm_sumsq_real(tail(wb));
+    assert(us_w1sq(s, z).v() == B);
+    let wa0 = wa[0].v(); let wb0 = wb[0].v();
+    lemma_pos_mul(is, s[0].v()); lemma_pos_mul(iz, z[0].v());
+    assert(wa0 > 0real);
+    lemma_pos_mul(iw, wa0);
+    assert(wb0 > 0real);
+    // wb0^2 - B = iw^2 (wa0^2 - A) = iw^2 ws^2 = 1
+    lemma_mul4(iw, wa0, iw, wa0);
+    let i2 = iw * iw;
+    assert(iw * (iw * A) == i2 * A) by(nonlinear_arith) requires i2 == iw * iw;
+    lemma_dist(i2, wa0 * wa0, -A);
+    assert(i2 * (-A) == -(i2 * A)) by(nonlinear_arith);
+    lemma_mul4(iw, ws, iw, ws);
+    assert(wa0 * wa0 - A == ws * ws);
+    assert(wb0 * wb0 - B == 1real);
+    let w0 = w[0].v();
+    assert(w[0] == f_sqrt(f_add(f_one(), us_w1sq(s, z))));
+    assert(f_add(f_one(), us_w1sq(s, z)).v() == wb0 * wb0);
+    assert(wb0 * wb0 >= 0real) by(nonlinear_arith);
+    assert(w0 >= 0real && w0 * w0 == wb0 * wb0);
+    lemma_sq_inj(w0, wb0);
+    assert(tail(w) =~= tail(wb));
+    assert(resid_r(w) == 1real);
+}
+
+// eta = sqrt(ss / zs), rt = sqrt(ss zs):  eta zs = rt = ss / eta
+pub proof fn lemma_nt_eta(s: Seq<F>, z: Seq<F>)
+    requires s.len() >= 1, z.len() >= 1, resid_r(s) > 0real, resid_r(z) > 0real,
+    ensures ({
+        let ss = sqrt_resid(s).v(); let zs = sqrt_resid(z).v(); let eta = us_eta(s, z).v(); let rt = f_sqrt(f_mul(sqrt_resid(s), sqrt_resid(z))).v();
+        eta > 0real && rt > 0real && eta * zs == rt && (1real / eta) * ss == rt && eta == rt * (1real / zs) && 1real / eta == rt * (1real / ss)
+    }),
+{
+    broadcast use real_arith, real_sqrt;
+    lemma_nt_scale(s); lemma_nt_scale(z);
+    let ss = sqrt_resid(s).v(); let zs = sqrt_resid(z).v(); let eta = us_eta(s, z).v(); let rt = f_sqrt(f_mul(sqrt_resid(s), sqrt_resid(z))).v();
+    let q = ss / zs; let pr = ss * zs;
+    assert(q > 0real && q * zs == ss) by(nonlinear_arith) requires q == ss / zs, ss > 0real, zs > 0real;
+    lemma_pos_mul(ss, zs);
+    assert(eta >= 0real && eta * eta == q);
+    assert(rt >= 0real && rt * rt == pr);
+    lemma_sq_pos(eta, q); lemma_sq_pos(rt, pr);
+    // (eta zs)^2 = q zs zs = ss zs
+    let ez = eta * zs;
+    lemma_mul4(eta, zs, eta, zs);
+    assert(q * (zs * zs) == pr) by(nonlinear_arith) requires q * zs == ss, pr == ss * zs;
+    lemma_pos_mul(eta, zs);
+    lemma_sq_inj(ez, rt);
+    // eta rt = eta eta zs = q zs = ss
+    assert(eta * rt == ss) by(nonlinear_arith) requires rt == eta * zs, eta * eta == q, q * zs == ss;
+    lemma_inv_pos(eta); lemma_inv_pos(zs); lemma_inv_pos(ss);
+    let ie = 1real / eta; let iz = 1real / zs; let is = 1real / ss;
+    assert(ie * ss == rt) by(nonlinear_arith) requires eta * rt == ss, ie * eta == 1real;
+    assert(eta == rt * iz) by(nonlinear_arith) requires eta * zs == rt, iz * zs == 1real;
+    assert(ie == rt * is) by(nonlinear_arith) requires ie * ss == rt, is * ss == 1real;
+}
+// lambda as written by update_scaling, with g = ws / 2, Gz = g + z0 / zs, Gs = g + s0 / ss, D = Gz + Gs
+pub proof fn lemma_nt_lambda_entries(s: Seq<F>, z: Seq<F>)
+    requires z.len() == s.len(), interior(s), interior(z), resid_r(us_wa(s, z)) > 0real,
+    ensures ({
+        let lam = us_lambda(s, z); let is = 1real / sqrt_resid(s).v(); let iz = 1real / sqrt_resid(z).v();
+        let g = us_gamma(s, z).v(); let rt = f_sqrt(f_mul(sqrt_resid(s), sqrt_resid(z))).v();
+        let gz = g + iz * z[0].v(); let gs = g + is * s[0].v(); let cinv = 1real / (gz + gs);
+        &&& lam.len() == s.len() && 2real * g == us_ws(s, z).v() && gz > 0real && gs > 0real
+        &&& lam[0].v() == g * rt
+        &&& forall|i: int| 1 <= i < s.len() ==> #[trigger] lam[i].v() == (((gz * is) * s[i].v() + (gs * iz) * z[i].v()) * cinv) * rt
+    }),
+{
+    broadcast use real_arith, real_sqrt;
+    reveal(us_lambda);
+    lemma_nt_scale(s); lemma_nt_scale(z); lemma_nt_w(s, z);
+    let ss = sqrt_resid(s).v(); let zs = sqrt_resid(z).v(); let is = 1real / ss; let iz = 1real / zs;
+    lemma_inv_pos(ss); lemma_inv_pos(zs);
+    let g = us_gamma(s, z).v(); let ws = us_ws(s, z).v(); let h = f_lit(0.5f64).v();
+    assert(g == h * ws);
+    assert(2real * g == ws) by(nonlinear_arith) requires g == h * ws, h * 2real == 1real;
+    let s0 = s[0].v(); let z0 = z[0].v();
+    assert(z0 / zs == iz * z0) by(nonlinear_arith) requires iz == 1real / zs, zs > 0real;
+    assert(s0 / ss == is * s0) by(nonlinear_arith) requires is == 1real / ss, ss > 0real;
+    lemma_pos_mul(iz, z0); lemma_pos_mul(is, s0);
+    let gz = g + iz * z0; let gs = g + is * s0;
+    assert((g + z0 / zs) / ss == gz * is) by(nonlinear_arith) requires gz == g + z0 / zs, is == 1real / ss, ss > 0real;
+    assert((g + s0 / ss) / zs == gs * iz) by(nonlinear_arith) requires gs == g + s0 / ss, iz == 1real / zs, zs > 0real;
+    assert((is * s0 + iz * z0) + 2real * g == gz + gs);
+}
+
+// head of W z resp. W^{-1} s, generic in (a, b) = (z, s) resp. (s, z):  iw ((ia a0 + ib b0) a0) + (iw ib) <a1,b1> - (iw ia) |a1|^2 = sa g
+pub proof fn lemma_nt_head_alg(a0: real, b0: real, aa: real, cc: real, sa: real, ia: real, ib: real, iw: real, ws: real, g: real)
+    requires ia * sa == 1real, sa * sa == a0 * a0 - aa, iw * ws == 1real, 2real * g == ws,
+        ws * ws == 2real + 2real * ((ia * ib) * (a0 * b0 + cc)),
+    ensures iw * ((ia * a0 + ib * b0) * a0) + ((iw * ib) * cc - (iw * ia) * aa) == sa * g,
+{
+    let A = a0 * b0 + cc; let kap = (ia * ib) * A; let k1 = kap + 1real;
+    // (ia a0 + ib b0) a0 = ia (a0 a0) + ib (a0 b0)
+    let p1 = ia * (a0 * a0); let p2 = ib * (a0 * b0); let p3 = ib * cc; let p4 = ia * aa;
+    assert((ia * a0 + ib * b0) * a0 == p1 + p2) by(nonlinear_arith) requires p1 == ia * (a0 * a0), p2 == ib * (a0 * b0);
+    assert((iw * ib) * cc == iw * p3) by(nonlinear_arith) requires p3 == ib * cc;
+    assert((iw * ia) * aa == iw * p4) by(nonlinear_arith) requires p4 == ia * aa;
+    lemma_dist(iw, p1 + p2, p3 - p4);
+    assert(iw * (p3 - p4) == iw * p3 - iw * p4) by(nonlinear_arith);
+    // p1 - p4 = ia (sa sa) = sa;   p2 + p3 = ib A = sa kap
+    lemma_dist(ia, a0 * a0, -aa);
+    assert(ia * (-aa) == -p4) by(nonlinear_arith) requires p4 == ia * aa;
+    assert(ia * (sa * sa) == sa) by(nonlinear_arith) requires ia * sa == 1real;
+    lemma_dist(ib, a0 * b0, cc);
+    let ibA = ib * A;
+    assert(sa * kap == ibA) by(nonlinear_arith) requires kap == (ia * ib) * A, ia * sa == 1real, ibA == ib * A;
+    assert((p1 + p2) + (p3 - p4) == sa * k1) by(nonlinear_arith) requires p1 - p4 == sa, p2 + p3 == sa * kap, k1 == kap + 1real;
+    // iw k1 = g
+    assert(2real * k1 == ws * ws);
+    assert(iw * (ws * ws) == ws) by(nonlinear_arith) requires iw * ws == 1real;
+    let ik = iw * k1;
+    assert(2real * ik == ws) by(nonlinear_arith) requires ik == iw * k1, 2real * k1 == ws * ws, iw * (ws * ws) == ws;
+    assert(ik == g);
+    lemma_mul_swap(iw, sa, k1);
+}
+// the coefficient E = ia c iw of (is s_i - iz z_i) in the tail, where c (1 + w0) = a0 + sa g:  E D = g + ia a0
+pub proof fn lemma_nt_E_alg(a0: real, sa: real, ia: real, c: real, w0: real, iw: real, dd: real, g: real)
+    requires ia * sa == 1real, c * (1real + w0) == a0 + sa * g, iw * dd == 1real + w0,
+    ensures ((ia * c) * iw) * dd == g + ia * a0,
+{
+    let iac = ia * c; let w1 = 1real + w0;
+    assert((iac * iw) * dd == iac * w1) by(nonlinear_arith) requires iw * dd == w1;
+    assert(iac * w1 == ia * (c * w1)) by(nonlinear_arith) requires iac == ia * c;
+    lemma_dist(ia, a0, sa * g);
+    assert(ia * (sa * g) == g) by(nonlinear_arith) requires ia * sa == 1real;
+}
+// rt Y + (rt E)(X - Y) = ((Gz X + Gs Y) cinv) rt   when E D = Gz, D = Gz + Gs, cinv D = 1
+pub proof fn lemma_nt_tail_alg(rt: real, e: real, cinv: real, gz: real, gs: real, dd: real, x: real, y: real)
+    requires e * dd == gz, dd == gz + gs, cinv * dd == 1real,
+    ensures rt * y + (rt * e) * (x - y) == ((gz * x + gs * y) * cinv) * rt,
+{
+    assert(e == gz * cinv) by(nonlinear_arith) requires e * dd == gz, cinv * dd == 1real;
+    let f = gs * cinv;
+    assert(e + f == 1real) by(nonlinear_arith) requires e == gz * cinv, f == gs * cinv, dd == gz + gs, cinv * dd == 1real;
+    let ex = e * x; let fy = f * y;
+    assert(y + e * (x - y) == ex + fy) by(nonlinear_arith) requires e + f == 1real, ex == e * x, fy == f * y;
+    assert((gz * x + gs * y) * cinv == ex + fy) by(nonlinear_arith) requires e == gz * cinv, f == gs * cinv, ex == e * x, fy == f * y;
+    let inner = y + e * (x - y);
+    lemma_dist(rt, y, e * (x - y));
+    lemma_mul_swap(rt, e, x - y);
+    assert((rt * e) * (x - y) == e * (rt * (x - y))) by(nonlinear_arith);
+    assert(inner * rt == rt * inner) by(nonlinear_arith);
+}
+
+// the facts shared by the two identities, collected once
+pub open spec fn nt_S(s: Seq<F>) -> real { rdot(tail(s), tail(s), s.len() - 1) }
+pub open spec fn nt_C(s: Seq<F>, z: Seq<F>) -> real { rdot(tail(s), tail(z), s.len() - 1) }
+pub proof fn lemma_nt_common(s: Seq<F>, z: Seq<F>)
+    requires z.len() == s.len(), interior(s), interior(z), resid_r(us_wa(s, z)) > 0real,
+    ensures ({
+        let w = us_w(s, z); let ss = sqrt_resid(s).v(); let zs = sqrt_resid(z).v(); let ws = us_ws(s, z).v();
+        let is = 1real / ss; let iz = 1real / zs; let iw = 1real / ws; let m = s.len() - 1;
+        let S = nt_S(s); let Z = nt_S(z); let C = nt_C(s, z);
+        &&& ss > 0real && zs > 0real && ws > 0real && is * ss == 1real && iz * zs == 1real && iw * ws == 1real && is > 0real && iz > 0real && iw > 0real
+        &&& ss * ss == s[0].v() * s[0].v() - S && zs * zs == z[0].v() * z[0].v() - Z
+        &&& ws * ws == 2real + 2real * ((is * iz) * (s[0].v() * z[0].v() + C))
+        &&& w.len() == s.len() && w_normalised(w) && w[0].v() == iw * (is * s[0].v() + iz * z[0].v())
+        &&& forall|i: int| 1 <= i < s.len() ==> #[trigger] w[i].v() == iw * (is * s[i].v() - iz * z[i].v())
+        &&& rdot(tail(w), tail(s), m) == (iw * is) * S + (iw * (-iz)) * C
+        &&& rdot(tail(w), tail(z), m) == (iw * is) * C + (iw * (-iz)) * Z
+    }),
+{
+    let n = s.len() as int; let m = n - 1;
+    let w = us_w(s, z); let wa = us_wa(s, z);
+    lemma_nt_w(s, z); lemma_nt_wa_entries(s, z); lemma_nt_scale(s); lemma_nt_scale(z);
+    let ss = sqrt_resid(s).v(); let zs = sqrt_resid(z).v(); let ws = us_ws(s, z).v();
+    lemma_inv_pos(ss); lemma_inv_pos(zs); lemma_inv_pos(ws);
+    let is = 1real / ss; let iz = 1real / zs; let iw = 1real / ws;
+    let S = nt_S(s); let Z = nt_S(z); let C = nt_C(s, z);
+    let ts = tail(s); let tz = tail(z); let twa = tail(wa); let tw = tail(w);
+    assert(ts.len() == m && tz.len() == m && twa.len() == m && tw.len() == m);
+    assert forall|k: int| 0 <= k < m implies #[trigger] twa[k].v() == is * ts[k].v() + (-iz) * tz[k].v() by {
+        assert(twa[k] == wa[k + 1] && ts[k] == s[k + 1] && tz[k] == z[k + 1]);
+    }
+    lemma_rdot_lincomb(twa, ts, tz, is, -iz, m);
+    lemma_nt_resid_wa_alg(s[0].v(), z[0].v(), S, Z, C, ss, zs, is, iz);
+    let c1 = iw * is; let c2 = iw * (-iz);
+    assert forall|i: int| 1 <= i < n implies #[trigger] w[i].v() == iw * (is * s[i].v() - iz * z[i].v()) by {
+        let zi = z[i].v();
+        assert((-iz) * zi == -(iz * zi)) by(nonlinear_arith);
+    }
+    assert forall|k: int| 0 <= k < m implies #[trigger] tw[k].v() == c1 * ts[k].v() + c2 * tz[k].v() by {
+        assert(tw[k] == w[k + 1] && ts[k] == s[k + 1] && tz[k] == z[k + 1] && twa[k] == wa[k + 1]);
+        let sk = ts[k].v(); let zk = tz[k].v();
+        lemma_dist(iw, is * sk, (-iz) * zk);
+        assert(iw * (is * sk) == c1 * sk) by(nonlinear_arith) requires c1 == iw * is;
+        assert(iw * ((-iz) * zk) == c2 * zk) by(nonlinear_arith) requires c2 == iw * (-iz);
+    }
+    lemma_rdot_lincomb(tw, ts, tz, c1, c2, m);
+}
+// W z = lambda
+pub proof fn lemma_nt_Wz(s: Seq<F>, z: Seq<F>, ya: Seq<F>, i: int)
+    requires z.len() == s.len(), interior(s), interior(z), resid_r(us_wa(s, z)) > 0real, ya.len() == s.len(), 0 <= i < s.len(),
+    ensures mulW_seq(ya, z, f_one(), f_zero(), us_w(s, z), us_eta(s, z))[i].v() == us_lambda(s, z)[i].v(),
+{
+    let n = s.len() as int; let m = n - 1;
+    let w = us_w(s, z); let eta = us_eta(s, z);
+    lemma_nt_common(s, z); lemma_nt_eta(s, z); lemma_nt_lambda_entries(s, z);
+    let ss = sqrt_resid(s).v(); let zs = sqrt_resid(z).v(); let ws = us_ws(s, z).v();
+    let is = 1real / ss; let iz = 1real / zs; let iw = 1real / ws;
+    let S = nt_S(s); let Z = nt_S(z); let C = nt_C(s, z);
+    let s0 = s[0].v(); let z0 = z[0].v(); let w0 = w[0].v(); let e = eta.v();
+    let g = us_gamma(s, z).v(); let rt = f_sqrt(f_mul(sqrt_resid(s), sqrt_resid(z))).v();
+    let gz = g + iz * z0; let gs = g + is * s0; let dd = gz + gs; let cinv = 1real / dd;
+    lemma_mulW_entries(ya, z, f_one(), f_zero(), w, eta);
+    let u = mulW_seq(ya, z, f_one(), f_zero(), w, eta);
+    let zeta = rdot(tail(w), tail(z), m);
+    broadcast use real_arith;
+    // head:  w0 z0 + zeta = zs g
+    assert((iz * is) * (z0 * s0 + C) == (is * iz) * (s0 * z0 + C)) by(nonlinear_arith);
+    lemma_nt_head_alg(z0, s0, Z, C, zs, iz, is, iw, ws, g);
+    let wa0 = iz * z0 + is * s0;
+    assert(w0 * z0 == iw * (wa0 * z0)) by(nonlinear_arith) requires w0 == iw * wa0;
+    assert((iw * (-iz)) * Z == -((iw * iz) * Z)) by(nonlinear_arith);
+    let hd = w0 * z0 + zeta;
+    assert(hd == zs * g);
+    if i == 0 {
+        assert(u[0].v() == (1real * e) * hd + 0real * ya[0].v());
+        assert(e * (zs * g) == (e * zs) * g) by(nonlinear_arith);
+        assert(g * rt == rt * g) by(nonlinear_arith);
+    } else {
+        let w1 = 1real + w0;
+        lemma_inv_pos(w1);
+        let d1 = 1real / w1;
+        let c = z0 + zeta / w1;
+        assert(zeta / w1 == zeta * d1) by(nonlinear_arith) requires d1 == 1real / w1, w1 > 0real;
+        assert(c * w1 == z0 + zs * g) by(nonlinear_arith) requires c == z0 + zeta * d1, d1 * w1 == 1real, w1 == 1real + w0, w0 * z0 + zeta == zs * g;
+        // iw D = 1 + w0
+        assert(iw * dd == w1) by(nonlinear_arith) requires dd == (is * s0 + iz * z0) + 2real * g, 2real * g == ws, iw * ws == 1real, w0 == iw * (is * s0 + iz * z0), w1 == 1real + w0;
+        lemma_nt_E_alg(z0, zs, iz, c, w0, iw, dd, g);
+        let ee = (iz * c) * iw;
+        lemma_pos_mul(1real, dd);
+        lemma_inv_pos(dd);
+        let x = is * s[i].v(); let y = iz * z[i].v();
+        lemma_nt_tail_alg(rt, ee, cinv, gz, gs, dd, x, y);
+        let zi = z[i].v(); let si = s[i].v(); let wi = w[i].v();
+        assert(wi == iw * (x - y));
+        assert(u[i].v() == (1real * e) * zi + (((1real * e) * c) * wi + 0real * ya[i].v()));
+        assert(e * zi == rt * y) by(nonlinear_arith) requires e == rt * iz, y == iz * zi;
+        assert((e * c) * wi == (rt * ee) * (x - y)) by(nonlinear_arith) requires e == rt * iz, ee == (iz * c) * iw, wi == iw * (x - y);
+        assert((gz * is) * si == gz * x) by(nonlinear_arith) requires x == is * si;
+        assert((gs * iz) * zi == gs * y) by(nonlinear_arith) requires y == iz * zi;
+    }
+}
+
+// W^{-1} s = lambda
+pub proof fn lemma_nt_Winvs(s: Seq<F>, z: Seq<F>, yb: Seq<F>, i: int)
+    requires z.len() == s.len(), interior(s), interior(z), resid_r(us_wa(s, z)) > 0real, yb.len() == s.len(), 0 <= i < s.len(),
+    ensures mulWinv_seq(yb, s, f_one(), f_zero(), us_w(s, z), us_eta(s, z))[i].v() == us_lambda(s, z)[i].v(),
+{
+    let n = s.len() as int; let m = n - 1;
+    let w = us_w(s, z); let eta = us_eta(s, z);
+    lemma_nt_common(s, z); lemma_nt_eta(s, z); lemma_nt_lambda_entries(s, z);
+    let ss = sqrt_resid(s).v(); let zs = sqrt_resid(z).v(); let ws = us_ws(s, z).v();
+    let is = 1real / ss; let iz = 1real / zs; let iw = 1real / ws;
+    let S = nt_S(s); let Z = nt_S(z); let C = nt_C(s, z);
+    let s0 = s[0].v(); let z0 = z[0].v(); let w0 = w[0].v(); let e = eta.v(); let ie = 1real / e;
+    let g = us_gamma(s, z).v(); let rt = f_sqrt(f_mul(sqrt_resid(s), sqrt_resid(z))).v();
+    let gz = g + iz * z0; let gs = g + is * s0; let dd = gz + gs; let cinv = 1real / dd;
+    lemma_mulWinv_entries(yb, s, f_one(), f_zero(), w, eta);
+    let t = mulWinv_seq(yb, s, f_one(), f_zero(), w, eta);
+    let zeta = rdot(tail(w), tail(s), m);
+    broadcast use real_arith;
+    assert(1real / e == ie);
+    // head:  w0 s0 - zeta = ss g
+    lemma_nt_head_alg(s0, z0, S, C, ss, is, iz, iw, ws, g);
+    let wa0 = is * s0 + iz * z0;
+    assert(w0 * s0 == iw * (wa0 * s0)) by(nonlinear_arith) requires w0 == iw * wa0;
+    assert((iw * (-iz)) * C == -((iw * iz) * C)) by(nonlinear_arith);
+    let hd = w0 * s0 - zeta;
+    assert(hd == ss * g);
+    if i == 0 {
+        assert(t[0].v() == ie * hd + 0real * yb[0].v());
+        assert(ie * (ss * g) == (ie * ss) * g) by(nonlinear_arith);
+        assert(g * rt == rt * g) by(nonlinear_arith);
+    } else {
+        let w1 = 1real + w0;
+        lemma_inv_pos(w1);
+        let d1 = 1real / w1;
+        let c = -s0 + zeta / w1;
+        assert(zeta / w1 == zeta * d1) by(nonlinear_arith) requires d1 == 1real / w1, w1 > 0real;
+        let cc = -c;
+        assert(cc * w1 == s0 + ss * g) by(nonlinear_arith) requires cc == s0 - zeta * d1, d1 * w1 == 1real, w1 == 1real + w0, w0 * s0 - zeta == ss * g;
+        assert(iw * dd == w1) by(nonlinear_arith) requires dd == (is * s0 + iz * z0) + 2real * g, 2real * g == ws, iw * ws == 1real, w0 == iw * (is * s0 + iz * z0), w1 == 1real + w0;
+        lemma_nt_E_alg(s0, ss, is, cc, w0, iw, dd, g);
+        let e1 = (is * c) * iw;
+        assert(e1 == -((is * cc) * iw)) by(nonlinear_arith) requires cc == -c, e1 == (is * c) * iw;
+        let f1 = (is * cc) * iw;
+        assert(e1 * dd == -gs) by(nonlinear_arith) requires e1 == -f1, f1 * dd == gs;
+        let e2 = 1real + e1;
+        assert(e2 * dd == gz) by(nonlinear_arith) requires e2 == 1real + e1, e1 * dd == -gs, dd == gz + gs;
+        lemma_pos_mul(1real, dd);
+        lemma_inv_pos(dd);
+        let x = is * s[i].v(); let y = iz * z[i].v();
+        lemma_nt_tail_alg(rt, e2, cinv, gz, gs, dd, x, y);
+        let zi = z[i].v(); let si = s[i].v(); let wi = w[i].v();
+        assert(wi == iw * (x - y));
+        assert(t[i].v() == ie * si + ((ie * c) * wi + 0real * yb[i].v()));
+        assert(ie * si == rt * x) by(nonlinear_arith) requires ie == rt * is, x == is * si;
+        assert((ie * c) * wi == (rt * e1) * (x - y)) by(nonlinear_arith) requires ie == rt * is, e1 == (is * c) * iw, wi == iw * (x - y);
+        // rt x + (rt e1)(x - y) = rt y + (rt e2)(x - y)
+        let xy = x - y;
+        lemma_dist(rt, 1real, e1);
+        assert((rt * 1real + rt * e1) * xy == rt * xy + (rt * e1) * xy) by(nonlinear_arith);
+        assert(rt * xy == rt * x - rt * y) by(nonlinear_arith) requires xy == x - y;
+        assert((gz * is) * si == gz * x) by(nonlinear_arith) requires x == is * si;
+        assert((gs * iz) * zi == gs * y) by(nonlinear_arith) requires y == iz * zi;
+    }
+}
+// C13 for the second-order cone, stated over the postcondition of update_scaling: if it returns true for interior s, z, then the
+// (w, eta, lambda) it wrote satisfy  w0 > 0, w0^2 - |w1|^2 = 1, eta > 0,  mul_W(z) = mul_Winv(s) = lambda  (alpha = 1, beta = 0)
+pub proof fn lemma_nt_identities(s: Seq<F>, z: Seq<F>, ya: Seq<F>, yb: Seq<F>, i: int)
+    requires z.len() == s.len(), interior(s), interior(z), ya.len() == s.len(), yb.len() == s.len(), 0 <= i < s.len(),
+        !(us_not_interior(s, z) || f_eq(us_ws(s, z), f_zero())),        // update_scaling returned true
+    ensures
+        w_normalised(us_w(s, z)), us_eta(s, z).v() > 0real,
+        mulW_seq(ya, z, f_one(), f_zero(), us_w(s, z), us_eta(s, z))[i].v() == us_lambda(s, z)[i].v(),
+        mulWinv_seq(yb, s, f_one(), f_zero(), us_w(s, z), us_eta(s, z))[i].v() == us_lambda(s, z)[i].v(),
+{
+    lemma_nt_success(s, z);
+    lemma_nt_common(s, z); lemma_nt_eta(s, z);
+    lemma_nt_Wz(s, z, ya, i); lemma_nt_Winvs(s, z, yb, i);
+}
+
+// ---- (v) C11, sparse form: the expansion constants d, u, v that update_scaling writes satisfy  D + u u' - v v' = 2 w w' - J,
+//      D = diag(d, 1, .., 1)  (so that eta^2 (D + u u' - v v'), the block assembled from get_Hs's diagonal and the u / v columns,
+//      is the operator of the dense form and of mul_Hs)
+pub proof fn lemma_sparse_alg(w0: real, q: real, d: real, iq: real, u0: real, u1: real, v1: real)
+    requires q == 2real * (w0 * w0) - 1real, q >= 1real, iq * q == 1real, 2real * d == iq, u0 * u0 == q - d, u1 * u0 == 2real * w0,
+        (v1 * v1) * (2real * q - iq) == 2real * (2real + iq),
+    ensures d + u0 * u0 == q, u1 * u1 - v1 * v1 == 2real,
+{
+    let qq = q * q; let r = 2real * qq - 1real;
+    assert(qq >= 1real) by(nonlinear_arith) requires q >= 1real, qq == q * q;
+    let a = u1 * u1; let b = v1 * v1; let ww = w0 * w0;
+    // (q - d) 2 q = r
+    let dq = d * q;
+    assert(2real * dq == 1real) by(nonlinear_arith) requires 2real * d == iq, iq * q == 1real, dq == d * q;
+    let t = q - d;
+    assert(t * (2real * q) == r) by(nonlinear_arith) requires t == q - d, dq == d * q, 2real * dq == 1real, r == 2real * qq - 1real, qq == q * q;
+    // a t = 4 w0 w0 = 2 (q + 1)
+    lemma_mul4(u1, u0, u1, u0);
+    assert((u1 * u0) * (u1 * u0) == 4real * ww) by(nonlinear_arith) requires u1 * u0 == 2real * w0, ww == w0 * w0;
+    assert(a * t == 2real * (q + 1real));
+    // a r = a t 2 q = 4 q (q + 1)
+    let at = a * t;
+    assert(a * r == at * (2real * q)) by(nonlinear_arith) requires at == a * t, t * (2real * q) == r;
+    assert(at * (2real * q) == 4real * qq + 4real * q) by(nonlinear_arith) requires at == 2real * (q + 1real), qq == q * q;
+    // b r = b (2 q - iq) q = (4 + 2 iq) q = 4 q + 2
+    let den = 2real * q - iq;
+    assert(den * q == r) by(nonlinear_arith) requires den == 2real * q - iq, iq * q == 1real, r == 2real * qq - 1real, qq == q * q;
+    let bd = b * den;
+    assert(b * r == bd * q) by(nonlinear_arith) requires bd == b * den, den * q == r;
+    assert(bd * q == 4real * q + 2real) by(nonlinear_arith) requires bd == 2real * (2real + iq), iq * q == 1real;
+    // (a - b) r = 2 r
+    let ab = a - b;
+    assert(ab * r == 2real * r) by(nonlinear_arith) requires ab == a - b, a * r == 4real * qq + 4real * q, b * r == 4real * q + 2real, r == 2real * qq - 1real;
+    assert(ab == 2real) by(nonlinear_arith) requires ab * r == 2real * r, r >= 1real;
+}
+pub proof fn lemma_sparse_expansion(s: Seq<F>, z: Seq<F>, u_old: Seq<F>, v_old: Seq<F>, i: int, j: int)
+    requires s.len() >= 1, w_normalised(us_w(s, z)), us_w(s, z).len() == s.len(), u_old.len() == s.len(), v_old.len() == s.len(), 0 <= i <= j < s.len(),
+    ensures ({
+        let w = us_w(s, z); let u = us_u(s, z, u_old); let v = us_v(s, z, v_old);
+        (if i == j { if i == 0 { us_d(s, z).v() } else { 1real } } else { 0real }) + u[i].v() * u[j].v() - v[i].v() * v[j].v()
+            == 2real * (w[i].v() * w[j].v()) + (if i == j { jsign(i) } else { 0real })
+    }),
+{
+    broadcast use real_arith, real_sqrt;
+    reveal(us_wb); reveal(us_w); reveal(us_u); reveal(us_v);
+    let n = s.len() as int; let m = n - 1;
+    let w = us_w(s, z); let u = us_u(s, z, u_old); let v = us_v(s, z, v_old);
+    let w0 = w[0].v(); let ww = w0 * w0;
+    // w1sq = |w1|^2 = w0^2 - 1
+    assert(tail(w) =~= tail(us_wb(s, z)));
+    assert(tail(w).len() == m);
+    lemma_vm_sumsq_real(tail(us_wb(s, z)));
+    lemma_rdot_sq_nonneg(tail(w), m);
+    let n1 = us_w1sq(s, z).v();
+    assert(n1 == ww - 1real && n1 >= 0real);
+    let q = us_wsq(s, z).v();
+    assert(q == ww + n1);
+    assert(q == 2real * ww - 1real && q >= 1real);
+    lemma_inv_pos(q);
+    let iq = 1real / q;
+    let h = f_lit(0.5f64).v();
+    let d = us_d(s, z).v();
+    assert(d == h * iq);
+    assert(2real * d == iq) by(nonlinear_arith) requires d == h * iq, h * 2real == 1real;
+    assert(iq <= 1real) by(nonlinear_arith) requires iq * q == 1real, q >= 1real, iq > 0real;
+    let u0 = us_u0(s, z).v();
+    assert(q - d > 0real);
+    assert(u0 >= 0real && u0 * u0 == q - d);
+    lemma_sq_pos(u0, q - d);
+    let u1 = us_u1(s, z).v();
+    assert(u1 == (2real * w0) / u0);
+    assert(u1 * u0 == 2real * w0) by(nonlinear_arith) requires u1 == (2real * w0) / u0, u0 > 0real;
+    let num = 2real * (2real + iq); let den = 2real * q - iq;
+    assert(den > 0real && num > 0real);
+    let v1 = us_v1(s, z).v();
+    let fr = num / den;
+    assert(fr >= 0real && fr * den == num) by(nonlinear_arith) requires fr == num / den, den > 0real, num > 0real;
+    assert(v1 * v1 == fr);
+    assert((v1 * v1) * den == num);
+    lemma_sparse_alg(w0, q, d, iq, u0, u1, v1);
+    let wi = w[i].v(); let wj = w[j].v();
+    if j == 0 {
+        assert(v[0].v() == 0real);
+        assert(0real * 0real == 0real) by(nonlinear_arith);
+    } else if i == 0 {
+        assert(u[j].v() == u1 * wj + 0real * u_old[j].v());
+        assert(v[0].v() == 0real);
+        assert(u0 * (u1 * wj) == 2real * (w0 * wj)) by(nonlinear_arith) requires u1 * u0 == 2real * w0;
+        assert(0real * v[j].v() == 0real) by(nonlinear_arith);
+    } else {
+        assert(u[i].v() == u1 * wi + 0real * u_old[i].v() && u[j].v() == u1 * wj + 0real * u_old[j].v());
+        assert(v[i].v() == v1 * wi + 0real * v_old[i].v() && v[j].v() == v1 * wj + 0real * v_old[j].v());
+        lemma_mul4(u1, wi, u1, wj); lemma_mul4(v1, wi, v1, wj);
+        let a = u1 * u1; let b = v1 * v1; let pw = wi * wj;
+        assert(a * pw - b * pw == 2real * pw) by(nonlinear_arith) requires a - b == 2real;
+    }
 }
 
 } // verus!
